@@ -8,7 +8,7 @@ use ::libp2p::PeerId;
 use symrt::SymU;
 
 // ----- distances -----
-#[derive(Clone, Copy, Debug, PartialEq, Eq, PartialOrd, Ord)]
+#[derive(Clone, Copy, PartialEq, Eq, PartialOrd, Ord)]
 pub struct Distance(pub SymU<256>);
 
 /// number of significant bits of a symbolic 256-bit value (0 for 0): binary search whose every
@@ -76,9 +76,45 @@ impl U256 {
     }
 }
 
-/// identity on the 256-bit term (assumption justified by C11's checks)
-pub fn convert_distance_to_u256(d: &Distance) -> U256 {
-    U256(d.0)
+/// the real function (transplanted, gen/distance_glue.rs) over the Debug text of the shim Distance
+pub use crate::distance_glue::convert_distance_to_u256;
+
+/// decimal text of a 256-bit term: the real decimal digits of a constant; for a symbolic value a placeholder number of
+/// 90 digits (longer than any 256-bit value: it cannot be mistaken for one) that carries the identity of the term
+fn decimal_text(t: SymU<256>) -> String {
+    match t.as_const() {
+        Some(v) => v.to_string(),
+        None => format!("9999999999{:080}", t.0),
+    }
+}
+/// as libp2p's derived Debug over uint's decimal Debug: `Distance(<decimal digits>)`
+impl std::fmt::Debug for Distance {
+    fn fmt(&self, f: &mut std::fmt::Formatter<'_>) -> std::fmt::Result {
+        write!(f, "Distance({})", decimal_text(self.0))
+    }
+}
+impl U256 {
+    pub fn zero() -> Self {
+        U256(SymU::konst(0))
+    }
+}
+/// as ruint's FromStr for plain decimal text; a placeholder number is mapped back to the term it stands for
+impl std::str::FromStr for U256 {
+    type Err = ();
+    fn from_str(s: &str) -> Result<Self, ()> {
+        if s.is_empty() || !s.bytes().all(|b| b.is_ascii_digit()) {
+            // (ruint also accepts 0x / 0o / 0b prefixes and '_' separators: none of them can come out of a decimal print)
+            return Err(());
+        }
+        if s.len() == 90 && s.starts_with("9999999999") {
+            let id: u32 = s[10..].parse().map_err(|_| ())?;
+            return Ok(U256(SymU(id)));
+        }
+        if s.len() > 78 {
+            return Err(());
+        }
+        ruint::aliases::U256::from_str_radix(s, 10).map(|v| U256(SymU::konst_u256(v))).map_err(|_| ())
+    }
 }
 
 #[derive(Clone, PartialEq, Eq, Hash, PartialOrd, Ord)]
